@@ -395,14 +395,14 @@ def check(run, replay):
 
     vlib.ensure_repo_build()
     ok = run.prove()
-    have_model = os.path.exists(os.path.join(vlib.COQ, "theories/Ast/Run.vo"))
     if not ok:
         run.violation("proof:" + PID, "Properties_C07.vo does not build: " + str(run.proof_error())[:300],
                       {"broken": "proof", "detail": run.proof_error()}, found_input=False)
-    if not have_model:
-        ok2, out, _ = vlib.coq_make(["theories/Ast/Run.vo"])
-        if not ok2:
-            return
+    # the model (Ast/Run.vo) is built by make as well, so that it is never stale w.r.t. Defs.v / Frag.v
+    ok2, out, _ = vlib.coq_make(["theories/Ast/Run.vo"])
+    if not ok2:
+        run.violation("model:" + PID, "Ast/Run.vo does not build: " + out[-300:], {"broken": "model build", "log": out[-2000:]}, found_input=False)
+        return
     model = vlib.build_model(PID)
     vh = vlib.build_harness(PID)
     ev = Evaluator(run, model, vh)
